@@ -103,13 +103,14 @@ HexToDecLE(cs, lo, hi, acc) ==
   IF lo >= hi THEN acc ELSE HexToDecLE(cs, lo + 1, hi, MulAddLE(acc, 1, 16, HexVal(cs[lo]), <<>>))
 Canon(ds) == IF ds = <<>> THEN <<0>> ELSE ds    \* MSB-first digits of a natural number
 
+\* the value of an integer literal (R = RefNum(cs, p), form decint or hexint) as MSB-first decimal digits
+IntDigits(cs, p, R) ==
+  IF R.form = "decint" THEN Canon(DigitsOf(cs, FirstNonZero(cs, p, R.end), R.end))
+  ELSE Canon(Reverse(HexToDecLE(cs, p, R.hend, <<>>)))
 C08_int_value(r) ==
   {i \in NumIdx(r) : LET t == r.toks[i]  R == RefNum(r.cs, t.c + 1) IN
      /\ ErrsAt(r, t.i) = {} /\ R.errs = {} /\ t.ty = "IntegerLiteral" /\ R.ty = "IntegerLiteral"
-     /\ LET exp == IF R.form = "decint"
-                     THEN Canon(DigitsOf(r.cs, FirstNonZero(r.cs, t.c + 1, R.end), R.end))
-                     ELSE Canon(Reverse(HexToDecLE(r.cs, t.c + 1, R.hend, <<>>)))
-        IN ~(t.pk = "i" /\ t.pi = exp)}
+     /\ ~(t.pk = "i" /\ t.pi = IntDigits(r.cs, t.c + 1, R))}
 
 \* ---------------------------------------------------------------- floats
 \* natural numbers as MSB-first digit sequences
